@@ -12,6 +12,7 @@ import (
 	xsfnt "golang.org/x/image/font/sfnt"
 	"golang.org/x/image/math/fixed"
 
+	"seehuhn.de/go/postscript/funit"
 	"seehuhn.de/go/sfnt"
 	"seehuhn.de/go/sfnt/cff"
 	"seehuhn.de/go/sfnt/glyf"
@@ -437,6 +438,89 @@ func c03Fonts(r *run.Run) {
 		})
 }
 
+// ---- whole glyf fonts whose glyf table sits at the short/long loca thresholds ----
+
+func c03FillerGlyph(fill int) *glyf.Glyph {
+	body := append([]byte{0, 2, byte(fill >> 8), byte(fill)}, make([]byte, fill)...)
+	// a triangle (0,0) (100,0) (100,100); the instructions are the filler
+	body = append(body, 0x31, 0x33, 0x35, 100, 100)
+	return &glyf.Glyph{Rect16: funit.Rect16{URx: 100, URy: 100}, Data: glyf.SimpleGlyph{NumContours: 1, Encoded: body}}
+}
+
+func c03Scaled(r *run.Run) {
+	sizes := []int{0xFFFC, 0xFFFE, 0x10000, 0x10002, 0x1FFFC, 0x1FFFE, 0x20000, 0x20002, 0x20004}
+	r.Explore(explore.Config{Name: "C03.scaled"},
+		"glyf fonts written with Font.Write whose glyf table is exactly 0xFFFC..0x10002 and 0x1FFFC..0x20004 bytes long (one or two filler glyphs behind the 6 base glyphs, or many 32-byte glyphs): container walk, and golang.org/x/image loads every glyph and agrees on count, advances and outlines",
+		func(c *explore.Ctx) {
+			total := sizes[c.Choose(len(sizes), "glyf size")]
+			many := c.Bool("many small glyphs")
+			f, spec := FontFromChoices(gen.FontOpts{NoMeta: true, NoLayout: true}, gen.KindGlyf, 2, 0, 0, 1)
+			base := f.Outlines.(*glyf.Outlines)
+			ol := *base
+			ol.Glyphs = append(glyf.Glyphs{}, base.Glyphs...)
+			ol.Names = nil
+			baseLen := len(ol.Glyphs.Encode().GlyfData)
+			small := gen.SimpleGlyf([][]gen.Pt{{{0, 0, true}, {300, 0, true}, {150, 400, true}}}, nil)
+			smallLen := len(glyf.Glyphs{small}.Encode().GlyfData)
+			if many {
+				for baseLen+len(ol.Glyphs[len(base.Glyphs):])*smallLen+smallLen+64 < total {
+					ol.Glyphs = append(ol.Glyphs, small)
+				}
+			}
+			rest := total - len(ol.Glyphs.Encode().GlyfData) - smallLen
+			ok := false
+			for _, parts := range []int{1, 2} {
+				if rest/parts > 0xFFFF+15 {
+					continue
+				}
+				for adj := -8; adj <= 8 && !ok; adj++ {
+					var fillers glyf.Glyphs
+					fill := rest/parts - 19 + adj
+					if fill < 0 {
+						continue
+					}
+					for k := 0; k < parts; k++ {
+						fillers = append(fillers, c03FillerGlyph(min(fill, 0xFFFF)))
+					}
+					cand := append(append(glyf.Glyphs{}, ol.Glyphs...), fillers...)
+					cand = append(cand, nil, small)
+					if len(cand.Encode().GlyfData) == total {
+						ol.Glyphs, ok = cand, true
+					}
+				}
+				if ok {
+					break
+				}
+			}
+			if !ok {
+				c.Skip(fmt.Sprintf("size %#x not reachable", total))
+			}
+			ol.Widths = make([]funit.Int16, len(ol.Glyphs))
+			for i := range ol.Widths {
+				ol.Widths[i] = funit.Int16(400 + i%7)
+			}
+			f.Outlines = &ol
+			desc := fmt.Sprintf("glyf table %#x bytes, %d glyphs", total, len(ol.Glyphs))
+			c.Sample(func() any { return desc })
+			c.Nontrivial()
+			out, err := writeFont(f)
+			if err != nil {
+				c.Fail("C03.write-err", "Font.Write scaled", "Write failed: %v (%s)", err, desc)
+				return
+			}
+			cont, probs := refsfnt.Walk(out)
+			for _, p := range probs {
+				c.Fail("C03.wellformed", "Font.Write scaled", "%s (%s)", p, desc)
+				return
+			}
+			if g, ok := cont.Table(out, "glyf"); !ok || len(g) != total {
+				explore.Fatal("C03.scaled: glyf table has %d bytes, wanted %d", len(g), total)
+			}
+			crossCheckXImage(c, "C03", f, spec.Runes, out)
+			c.Outcome(total, many)
+		})
+}
+
 // ---- concurrent writers: interleavings at the destination's Write calls ----
 
 type c03Job struct {
@@ -528,6 +612,7 @@ func init() {
 		}
 		c03Container(r)
 		c03Fonts(r)
+		c03Scaled(r)
 		// one P: the goroutines of the interleaving exploration share per-P caches (sync.Pool), as on a loaded machine
 		old := runtime.GOMAXPROCS(1)
 		c03Interleaved(r)
